@@ -6,7 +6,7 @@ recognise inside a construct it was told to extract raises TranslatorError, whic
 as a broken obligation (never silently skipped).  Theorems about these tables are therefore
 re-checked against what the source says now.
 """
-import os, re, hashlib, importlib
+import os, re, hashlib, importlib, json
 
 class TranslatorError(Exception):
     pass
@@ -181,9 +181,14 @@ def digest(paths):
     return h.hexdigest()[:16]
 
 def generate(repo, outdir):
+    """Regenerate every Gen module.  Returns (digests, owner, errors):
+    digests: module -> digest of the sources it was made from; owner: module -> plug-in name
+    ("core" for the tables below); errors: plug-in -> exception text.  A plug-in that raises leaves
+    its previously generated (committed baseline) modules in place, so that the driver still builds
+    for the other families; bin/check reports the failure for every property whose theorem modules
+    import one of that plug-in's modules."""
     os.makedirs(outdir, exist_ok=True)
-    digests = {}
-    mods = {}
+    digests, mods, owner, errors = {}, {}, {}, {}
     def table_mod(ns, rels, **kw):
         paths = [os.path.join(repo, r) for r in rels]
         items = []
@@ -191,29 +196,49 @@ def generate(repo, outdir):
             items += extract_tables(p, **kw)
         mods[ns] = render_module(ns, items, rels)
         digests[ns] = digest(paths)
-    table_mod("Skew", ["src/bios/skew.rs"],
-              only=["CPM_1_LSEC_TO_PSEC", "CPM_LSEC_TO_NABU_PSEC", "CPM_LSEC_TO_OSB1_PSEC", "CPM_LSEC_TO_DOS_LSEC",
+        owner[ns] = "core"
+    core = [
+        ("Skew", ["src/bios/skew.rs"], dict(only=["CPM_1_LSEC_TO_PSEC", "CPM_LSEC_TO_NABU_PSEC", "CPM_LSEC_TO_OSB1_PSEC", "CPM_LSEC_TO_DOS_LSEC",
                     "CPM_LSEC_TO_DOS_PSEC", "CPM_LSEC_TO_DOS_OFFSET", "D35_PHYSICAL", "DOS32_PHYSICAL",
-                    "DOS_LSEC_TO_DOS_PSEC", "DOS_PSEC_TO_DOS_LSEC", "block_offset", "byte_offset", "sector1", "sector2"])
-    table_mod("Disk525", ["src/img/disk525.rs"], only=["DISK_BYTES_53", "DISK_BYTES_62", "CHUNK53", "CHUNK62", "INVALID_NIB_BYTE"])
-    table_mod("Disk35", ["src/img/disk35.rs"], only=["DISK_BYTES_62", "ZONED_SECS_PER_TRACK", "ZONE_BOUNDS_1", "ZONE_BOUNDS_2", "TRACK_BITS"])
-    table_mod("Woz", ["src/img/woz.rs"], only=["CRC32_TAB"])
+                    "DOS_LSEC_TO_DOS_PSEC", "DOS_PSEC_TO_DOS_LSEC", "block_offset", "byte_offset", "sector1", "sector2"])),
+        ("Disk525", ["src/img/disk525.rs"], dict(only=["DISK_BYTES_53", "DISK_BYTES_62", "CHUNK53", "CHUNK62", "INVALID_NIB_BYTE"])),
+        ("Disk35", ["src/img/disk35.rs"], dict(only=["DISK_BYTES_62", "ZONED_SECS_PER_TRACK", "ZONE_BOUNDS_1", "ZONE_BOUNDS_2", "TRACK_BITS"])),
+        ("Woz", ["src/img/woz.rs"], dict(only=["CRC32_TAB"])),
+    ]
+    for ns, rels, kw in core:
+        try:
+            table_mod(ns, rels, **kw)
+        except Exception as ex:
+            errors["core:" + ns] = repr(ex)
+            owner[ns] = "core"
     # further generators live in their own files translator/gen_*.py, each exporting
     # generate(repo) -> {module_name: lean_source}, {module_name: digest}
     here = os.path.dirname(os.path.abspath(__file__))
+    known = json.load(open(os.path.join(here, "modules.json"))) if os.path.exists(os.path.join(here, "modules.json")) else {}
     for f in sorted(os.listdir(here)):
         if f.startswith("gen_") and f.endswith(".py"):
-            m = importlib.import_module(f[:-3])
-            ms, ds = m.generate(repo)
-            mods.update(ms); digests.update(ds)
+            name = f[:-3]
+            try:
+                m = importlib.import_module(name)
+                ms, ds = m.generate(repo)
+                mods.update(ms); digests.update(ds)
+                for k in ms:
+                    owner[k] = name
+            except Exception as ex:
+                errors[name] = repr(ex)
+                for k, v in known.items():
+                    if v == name:
+                        owner[k] = name
     for ns, content in mods.items():
         write_if_changed(os.path.join(outdir, ns + ".lean"), content)
-    # remove stale modules
-    for f in os.listdir(outdir):
-        if f.endswith(".lean") and f[:-5] not in mods:
-            os.remove(os.path.join(outdir, f))
-    return digests
+    # module -> plug-in map of the last complete generation (committed; used when a plug-in fails)
+    if not errors:
+        write_if_changed(os.path.join(here, "modules.json"), json.dumps(owner, indent=1, sort_keys=True))
+    return digests, owner, errors
 
 if __name__ == "__main__":
     import sys
-    print(generate(sys.argv[1] if len(sys.argv) > 1 else "/repo", sys.argv[2] if len(sys.argv) > 2 else "/verif/lean/A2Verif/Gen"))
+    d, o, e = generate(sys.argv[1] if len(sys.argv) > 1 else "/repo", sys.argv[2] if len(sys.argv) > 2 else "/verif/lean/A2Verif/Gen")
+    print(d)
+    print("errors:", e)
+    sys.exit(1 if e else 0)
